@@ -190,7 +190,7 @@ pub fn decode_c12(data: &[u8]) -> crate::props::c12::Case {
         4 => x % (total + 2),
         _ => x,
     };
-    crate::props::c12::Case { held, amount: Uint128::new(amount), order }
+    crate::props::c12::Case { held, amount: Uint128::new(amount), order, system: None }
 }
 
 pub fn decode_c17(data: &[u8]) -> crate::props::c17::Case {
@@ -223,7 +223,10 @@ pub fn decode_c18(data: &[u8]) -> crate::props::c18::Case {
     let ni = r.u8() % 5;
     let mut initial = vec![];
     for _ in 0..ni {
-        initial.push((r.u8() % 8, Uint128::new(r.amount() % 1_000_000_000_000)));
+        {
+            let b = r.u8();
+            initial.push((if b % 16 == 15 { 200 + (b / 16) % 8 } else { b % 8 }, Uint128::new(r.amount() % 1_000_000_000_000)));
+        }
     }
     let exp = |r: &mut Rd| match r.u8() % 4 {
         0 => Exp::None,
